@@ -365,6 +365,14 @@ def main(argv):  # noqa: C901
                 except Exception as e:  # noqa: BLE001
                     outc = type(e).__name__
                 sink.check(outc not in NOT_A_REJECTION, f'reject-shape-2d/{backend}', 'unravel rejects a 2-D array', ident, outc)
+            if total == 1:
+                try:
+                    unravel(B.vector(rng, 1, pd).reshape(()))  # a 0-d array holds one element but is not 1-D
+                    outc = 'accepted'
+                except Exception as e:  # noqa: BLE001
+                    outc = type(e).__name__
+                sink.check(outc not in NOT_A_REJECTION, f'reject-shape-0d/{backend}', 'unravel rejects a 0-d array', ident, outc)
+                sink.count(f'rejections:shape-0d:{backend}')
             if mixed:
                 od = B.other_dtype(pd)
                 try:
